@@ -9,10 +9,13 @@ Python only orchestrates, counts and maps TLC's classes to VIOLATION / KNOWN-FIN
 import json, os, re
 from . import lib
 
-BUGS = ["toggle", "actkeep", "effkeep", "asukeep"]
-ACTIONS = ["SetAct", "SetAtt", "SetSp", "Downsample", "SetTmpl", "SetEnergy", "SetCache", "SetOut", "SetUp", "Compute"]
-COUNTERS = ["fresh", "same", "cache", "add", "scale", "zero", "sym", "symOut", "errCompute", "errSetUp", "keep", "hit", "off", "compute", "stale"]
-MUST_BE_EXERCISED = ["fresh", "cache", "add", "scale", "zero", "sym", "symOut", "errCompute", "errSetUp", "keep", "hit", "off"]
+BUGS = ["toggle", "actkeep", "effkeep", "asukeep", "codesetup", "codesetupauto"]
+ACTIONS = ["SetAct", "SetAtt", "SetSp", "Downsample", "SetTmpl", "SetEnergy", "SetCache", "SetOut", "SetUp", "Compute",
+           "SetThr", "SetRnd", "SetZoom", "DsScanner", "DsImages"]
+COUNTERS = ["fresh", "same", "cache", "add", "scale", "zero", "sym", "symOut", "errCompute", "errSetUp", "keep", "hit", "off", "compute", "stale",
+            "thr", "rnd", "zoomSet", "dsScanner", "dsImages", "parse", "roundTrip", "phys", "rndCompute", "attGets", "rederive"]
+MUST_BE_EXERCISED = ["fresh", "cache", "add", "scale", "zero", "sym", "symOut", "errCompute", "errSetUp", "keep", "hit", "off",
+                     "thr", "rnd", "zoomSet", "dsScanner", "dsImages", "parse", "roundTrip", "phys", "rndCompute"]
 
 
 def counts_of(r):
@@ -42,6 +45,9 @@ def run(ctx):
     for a in ACTIONS:
         if r.coverage.get(a, (0, 0))[1] == 0:
             raise lib.ModelFailure("MC_Scatter: action %s never taken (vacuous model check)" % a)
+    # the same with automatic down-sampling settings (the derived scatter-point image then depends on the template)
+    ra = lib.tlc("MC_Scatter", cfg="MC_Scatter_auto" if q else "MC_Scatter_auto_thorough", workers=4 if q else 8, timeout=1500, heap="6g")
+    ctx.mc_must_pass(ra, "automatic zoom settings", "MC_Scatter")
     for b in BUGS:
         rb = lib.tlc("MC_Scatter", cfg="MC_Scatter_bug_" + b, workers=2, timeout=600, heap="4g")
         if not rb.violation:
